@@ -1041,6 +1041,50 @@ theorem walk_alt_fixed (hb ff ρ : Bool) (ds : List (Nat × SinkEv)) (hlen : ds.
                 simp [startsIn, hz, pend_none]) x
         simpa using this
 
+theorem walk_inRun_any (hb ff ρ : Bool) (m : Mode) : ∀ (seg : List Item) (i : Nat) (h : List Op) (pend : Option Nat) (st : Bool)
+    (e : Option String) (h' : List Op), walk hb ff ρ m i h pend st seg = some (e, h') → inRun h' = inRun h := by
+  intro seg
+  induction seg with
+  | nil =>
+    intro i h pend st e h' hw
+    cases pend with
+    | some y => simp [walk] at hw
+    | none =>
+      simp only [walk] at hw
+      split at hw
+      · simp only [Option.some.injEq, Prod.mk.injEq] at hw; rw [hw.2]
+      · simp at hw
+  | cons it seg ih =>
+    intro i h pend st e h' hw
+    cases pend with
+    | some y =>
+      obtain ⟨r, hs, hw'⟩ := walk_inv_some _ _ _ _ _ _ _ _ _ _ _ hw
+      obtain ⟨rfl, rfl⟩ := List.cons.inj hs
+      exact ih _ _ _ _ _ _ hw'
+    | none =>
+      cases it with
+      | exc x =>
+        cases seg with
+        | nil =>
+          simp only [walk] at hw
+          split at hw
+          · simp only [Option.some.injEq, Prod.mk.injEq] at hw; rw [hw.2]
+          · simp at hw
+        | cons a b => simp [walk] at hw
+      | radd o =>
+        simp only [walk] at hw
+        split at hw
+        · rw [ih _ _ _ _ _ _ hw, inRun_effAdd]
+        · simp at hw
+      | del x ev n =>
+        cases n with
+        | true => simp [walk] at hw
+        | false =>
+          simp only [walk] at hw
+          split at hw
+          · exact ih _ _ _ _ _ _ hw
+          · simp at hw
+
 theorem walk_inRun (hb ff ρ : Bool) (m : Mode) : ∀ (seg : List Item) (i : Nat) (h : List Op) (pend : Option Nat) (st : Bool)
     (h' : List Op), walk hb ff ρ m i h pend st seg = some (none, h') → inRun h' = inRun h := by
   intro seg
@@ -1382,5 +1426,279 @@ theorem C18_alternate (i : Input) (t : Trace) : cAlternate i t = true := by
 theorem holds_model (i : Input) : holds i (model i) = true := by
   simp only [holds, clauses, List.all_cons, List.all_nil, Bool.and_true, Bool.and_eq_true]
   exact ⟨C18_history i, C18_alternate i (model i)⟩
+
+/-! ## readable statements: the routing decision -/
+/-- **C18 (precedence)**: the rule of the first segment of the route code if there is one … -/
+theorem C18_route_rule_first (hb : Bool) (rs : List Reg) (e : Event) (rc : Str) (sink : Nat) (consume : Bool)
+    (hr : e.route = some rc) (hp : prefixRule rs (segments rc).1 = some (sink, consume)) :
+    destination hb rs e = some (sink, if consume then { e with route := (segments rc).2 } else e) := by
+  simp [destination, hr, hp]
+/-- … otherwise the rule of its test id … -/
+theorem C18_id_rule_second (hb : Bool) (rs : List Reg) (e : Event) (sink : Nat)
+    (hr : ∀ rc, e.route = some rc → prefixRule rs (segments rc).1 = none) (hi : idRule rs e.testId = some sink) :
+    destination hb rs e = some (sink, e) := by
+  cases hrt : e.route with
+  | none => simp [destination, hrt, hi]
+  | some rc => simp [destination, hrt, hr rc hrt, hi]
+/-- … otherwise the fallback, and without one there is no destination. -/
+theorem C18_fallback_last (hb : Bool) (rs : List Reg) (e : Event)
+    (hr : ∀ rc, e.route = some rc → prefixRule rs (segments rc).1 = none) (hi : idRule rs e.testId = none) :
+    destination hb rs e = if hb then some (0, e) else none := by
+  cases hrt : e.route with
+  | none => simp [destination, hrt, hi]
+  | some rc => simp [destination, hrt, hr rc hrt, hi]
+
+/-- every field but `route_code` is forwarded unchanged; the route code changes only under a consuming rule -/
+theorem C18_fields_unchanged (hb : Bool) (rs : List Reg) (e e' : Event) (sink : Nat)
+    (h : destination hb rs e = some (sink, e')) : e' = { e with route := e'.route } := by
+  simp only [destination] at h
+  split at h
+  · rename_i sink' consume rest _
+    simp only [Option.some.injEq, Prod.mk.injEq] at h
+    obtain ⟨_, rfl⟩ := h
+    cases consume <;> simp
+  · split at h
+    · simp only [Option.some.injEq, Prod.mk.injEq] at h; obtain ⟨_, rfl⟩ := h; rfl
+    · split at h
+      · simp only [Option.some.injEq, Prod.mk.injEq] at h; obtain ⟨_, rfl⟩ := h; rfl
+      · simp at h
+
+/-- `segments` really is "first segment, then the rest": a route code with a `/` is `first ++ "/" ++ rest` -/
+theorem C18_segments (rc : Str) :
+    '/' ∉ (segments rc).1 ∧
+    (rc = (segments rc).1 ∨ rc = (segments rc).1 ++ ['/'] ∨ ∃ rest, (segments rc).2 = some rest ∧ rest ≠ [] ∧ rc = (segments rc).1 ++ '/' :: rest) := by
+  induction rc with
+  | nil => simp [segments]
+  | cons c cs ih =>
+    by_cases h : c = '/'
+    · subst h
+      cases cs with
+      | nil => simp [segments]
+      | cons d ds => simp [segments]
+    · obtain ⟨ih1, ih2⟩ := ih
+      have hc : ¬ '/' = c := fun hh => h hh.symm
+      refine ⟨by simp [segments, h, hc, ih1], ?_⟩
+      simp only [segments, h, if_false, List.cons_append, List.cons.injEq, true_and]
+      exact ih2
+
+
+/-! ## readable statements: the dispatch of startTestRun / stopTestRun -/
+/-- the calls the router itself makes (not those made from inside a sink's method) -/
+def topCalls : List Item → List (Nat × SinkEv)
+  | [] => []
+  | .del x ev false :: r => (x, ev) :: topCalls r
+  | _ :: r => topCalls r
+
+/-- the calls made from inside a sink's method (immediate starts of re-entrantly added rules) -/
+def nestedCalls : List Item → List (Nat × SinkEv)
+  | [] => []
+  | .del x ev true :: r => (x, ev) :: nestedCalls r
+  | _ :: r => nestedCalls r
+
+theorem F_getElem_prefix (hb ff : Bool) (h X : List Op) (i : Nat) (x : Nat) (hx : (F hb ff h)[i]? = some x) :
+    (F hb ff (h ++ X))[i]? = some x := by
+  rw [F_append, List.getElem?_append_left (List.getElem?_eq_some_iff.mp hx).1]; exact hx
+
+/-- a dispatch walked through: the router called exactly the sinks registered at the end, from position `i` on,
+in order, each once — up to the one that raised, if one did -/
+theorem walk_tops (hb ff ρ : Bool) (ev : SinkEv) : ∀ (seg : List Item) (i : Nat) (h : List Op) (pend : Option Nat) (st : Bool)
+    (e : Option String) (h' : List Op), walk hb ff ρ (.ctl ev) i h pend st seg = some (e, h') → i ≤ (F hb ff h).length →
+    ∃ k, topCalls seg = (((F hb ff h').drop i).take k).map (·, ev) ∧ (e = none → i + k = (F hb ff h').length)
+      ∧ i + k ≤ (F hb ff h').length := by
+  intro seg
+  induction seg with
+  | nil =>
+    intro i h pend st e h' hw hi
+    cases pend with
+    | some y => simp [walk] at hw
+    | none =>
+      simp only [walk] at hw
+      split at hw
+      · rename_i hd
+        simp only [Option.some.injEq, Prod.mk.injEq] at hw
+        obtain ⟨rfl, rfl⟩ := hw
+        simp only [allDone, beq_iff_eq] at hd
+        exact ⟨0, by simp [topCalls], fun _ => by simpa using hd, by simpa using hi⟩
+      · simp at hw
+  | cons it seg ih =>
+    intro i h pend st e h' hw hi
+    cases pend with
+    | some y =>
+      obtain ⟨r, hs, hw'⟩ := walk_inv_some _ _ _ _ _ _ _ _ _ _ _ hw
+      obtain ⟨rfl, rfl⟩ := List.cons.inj hs
+      obtain ⟨k, h1, h2, h3⟩ := ih _ _ _ _ _ _ hw' hi
+      exact ⟨k, by simpa [topCalls] using h1, h2, h3⟩
+    | none =>
+      cases it with
+      | exc x =>
+        cases seg with
+        | nil =>
+          simp only [walk] at hw
+          split at hw
+          · simp only [Option.some.injEq, Prod.mk.injEq] at hw
+            obtain ⟨rfl, rfl⟩ := hw
+            exact ⟨0, by simp [topCalls], by simp, by simpa using hi⟩
+          · simp at hw
+        | cons a b => simp [walk] at hw
+      | radd o =>
+        simp only [walk] at hw
+        split at hw
+        · obtain ⟨k, h1, h2, h3⟩ := ih _ _ _ _ _ _ hw (by rw [F_effAdd]; simp only [List.length_append]; omega)
+          exact ⟨k, by simpa [topCalls] using h1, h2, h3⟩
+        · simp at hw
+      | del x ev' n =>
+        cases n with
+        | true => simp [walk] at hw
+        | false =>
+          simp only [walk] at hw
+          split at hw
+          · rename_i hn
+            simp only [nextTop, Option.map_eq_some_iff, Prod.mk.injEq] at hn
+            obtain ⟨x', hx, rfl, rfl⟩ := hn
+            obtain ⟨X, hX⟩ := walk_prefix _ _ _ _ _ _ _ _ _ _ _ hw
+            have hx' := F_getElem_prefix hb ff h X i x' hx
+            rw [← hX] at hx'
+            obtain ⟨k, h1, h2, h3⟩ := ih _ _ _ _ _ _ hw (List.getElem?_eq_some_iff.mp hx).1
+            obtain ⟨hlt, hxe⟩ := List.getElem?_eq_some_iff.mp hx'
+            refine ⟨k + 1, ?_, fun he => by have := h2 he; omega, by omega⟩
+            simp only [topCalls, h1]
+            rw [List.drop_eq_getElem_cons hlt, List.take_succ_cons, List.map_cons, hxe]
+          · simp at hw
+
+/-- with no run in progress nothing is started from inside a sink's method -/
+theorem walk_no_nested (hb ff : Bool) (m : Mode) : ∀ (seg : List Item) (i : Nat) (h : List Op) (st : Bool)
+    (e : Option String) (h' : List Op), walk hb ff false m i h none st seg = some (e, h') → nestedCalls seg = [] := by
+  intro seg
+  induction seg with
+  | nil => intros; rfl
+  | cons it seg ih =>
+    intro i h st e h' hw
+    cases it with
+    | exc x => cases seg with
+      | nil => rfl
+      | cons a b => simp [walk] at hw
+    | radd o =>
+      simp only [walk] at hw
+      split at hw
+      · simpa [nestedCalls] using ih _ _ _ _ _ hw
+      · simp at hw
+    | del x ev n =>
+      cases n with
+      | true => simp [walk] at hw
+      | false =>
+        simp only [walk] at hw
+        split at hw
+        · simpa [nestedCalls] using ih _ _ _ _ _ hw
+        · simp at hw
+
+theorem dispatch_aux (hb ff : Bool) (H : List Op) (s : State) (hI : Inv hb ff H s) (o : Op) (ev : SinkEv)
+    (hoc : o = .start ∨ o = .stop)
+    (hdef : ∀ seg res, opOk hb ff H o seg res = closes res (walk hb ff (inRun H) (.ctl ev) 0 H none false seg) [o]) :
+    ((step s o).2.2 = .ok →
+        topCalls (step s o).2.1 = (step s o).1.sinks.map (·, ev) ∧ (step s o).1.inRun = (decide (o = .start)))
+    ∧ (∀ x, (step s o).2.2 = .raised x →
+        (∃ k, topCalls (step s o).2.1 = ((step s o).1.sinks.take k).map (·, ev)) ∧ (step s o).1.inRun = s.inRun)
+    ∧ (s.inRun = false → nestedCalls (step s o).2.1 = []) := by
+  obtain ⟨H', hop, hI'⟩ := step_ok hb ff H s hI o
+  have hsinks := hI'.sinks
+  rw [hdef] at hop
+  cases hw : walk hb ff (inRun H) (.ctl ev) 0 H none false (step s o).2.1 with
+  | none => simp [closes, hw] at hop
+  | some p =>
+    obtain ⟨e, h'⟩ := p
+    obtain ⟨k, h1, h2, h3⟩ := walk_tops _ _ _ _ _ _ _ _ _ _ _ hw (Nat.zero_le _)
+    simp only [List.drop_zero, Nat.zero_add] at h1 h2 h3
+    have hnn : s.inRun = false → nestedCalls (step s o).2.1 = [] := by
+      intro hr; rw [← hI.inRun, hr] at hw; exact walk_no_nested _ _ _ _ _ _ _ _ _ hw
+    cases e with
+    | none =>
+      simp only [closes, hw] at hop
+      split at hop
+      · rename_i hres
+        simp only [Option.some.injEq] at hop
+        subst hop
+        simp only [beq_iff_eq] at hres
+        have hF : F hb ff (h' ++ [o]) = F hb ff h' := F_ctl hb ff h' o hoc
+        refine ⟨fun _ => ⟨?_, ?_⟩, fun x hx => by simp [hres] at hx, hnn⟩
+        · rw [h1, hsinks]
+          show _ = (F hb ff (h' ++ [o])).map _
+          rw [hF, List.take_of_length_le (by have := h2 rfl; omega)]
+        · rw [hI'.inRun]
+          rcases hoc with rfl | rfl <;> simp [inRun_snoc]
+      · simp at hop
+    | some x =>
+      simp only [closes, hw] at hop
+      split at hop
+      · rename_i hres
+        simp only [Option.some.injEq] at hop
+        subst hop
+        simp only [beq_iff_eq] at hres
+        refine ⟨fun hok => by simp [hres] at hok, fun y _ => ⟨⟨k, by rw [h1, hsinks]⟩, ?_⟩, hnn⟩
+        rw [hI'.inRun, hI.inRun]
+        exact walk_inRun_any _ _ _ _ _ _ _ _ _ _ _ hw
+      · simp at hop
+
+/-- **C18 (start/stop dispatch, exactly once)**: in every reachable state, `startTestRun` (`stopTestRun`) of the router
+calls — itself, i.e. not counting calls made from inside a sink's method — exactly the sinks that are registered for
+start/stop when it returns, in registration order, each **once**: the sinks registered before the call and the sinks
+registered re-entrantly while the dispatch is under way alike; only then is the run marked in progress (finished).
+If a sink raises, the dispatch ends there: the sinks called are a prefix (up to and including the raiser) of the
+registered ones, the later ones are **not** called, the exception reaches the driver, and the router's notion of
+"run in progress" is unchanged. -/
+theorem C18_dispatch_exactly_once (hb ff : Bool) (H : List Op) (s : State) (hI : Inv hb ff H s) :
+    (((step s .start).2.2 = .ok →
+        topCalls (step s .start).2.1 = (step s .start).1.sinks.map (·, .start) ∧ (step s .start).1.inRun = true)
+      ∧ (∀ x, (step s .start).2.2 = .raised x →
+          (∃ k, topCalls (step s .start).2.1 = ((step s .start).1.sinks.take k).map (·, .start))
+            ∧ (step s .start).1.inRun = s.inRun)
+      ∧ (s.inRun = false → nestedCalls (step s .start).2.1 = []))
+    ∧ (((step s .stop).2.2 = .ok →
+        topCalls (step s .stop).2.1 = (step s .stop).1.sinks.map (·, .stop) ∧ (step s .stop).1.inRun = false)
+      ∧ (∀ x, (step s .stop).2.2 = .raised x →
+          (∃ k, topCalls (step s .stop).2.1 = ((step s .stop).1.sinks.take k).map (·, .stop))
+            ∧ (step s .stop).1.inRun = s.inRun)) := by
+  have h1 := dispatch_aux hb ff H s hI .start .start (Or.inl rfl) (fun _ _ => rfl)
+  have h2 := dispatch_aux hb ff H s hI .stop .stop (Or.inr rfl) (fun _ _ => rfl)
+  refine ⟨⟨fun hk => by simpa using h1.1 hk, h1.2.1, h1.2.2⟩, fun hk => by simpa using h2.1 hk, h2.2.1⟩
+
+/-- sinks already registered keep their place: the dispatch list only grows at the end -/
+theorem C18_sinks_grow (hb ff : Bool) (H : List Op) (s : State) (hI : Inv hb ff H s) (o : Op) :
+    ∃ X, (step s o).1.sinks = s.sinks ++ X := by
+  obtain ⟨H', hop, hI'⟩ := step_ok hb ff H s hI o
+  obtain ⟨X, hX⟩ := opOk_prefix hb ff H o _ _ H' hop
+  exact ⟨X.filterMap flaggedSink, by rw [hI'.sinks, hI.sinks, hX]; exact F_append hb ff H X⟩
+
+/-! ## non-vacuity -/
+private def ev1 (tid : Option Nat) (rc : Option String) : Event :=
+  { testId := tid, status := some .success, tags := none, runnable := true, fileName := none, fileBytes := none,
+    eof := false, mime := none, route := rc.map String.toList, timestamp := none }
+
+/-- the seeded shape: the fallback registers a worker (with the flag) from inside its own `startTestRun`; the worker is
+reached by the same dispatch — once — and stopped once; a second lazy registration at `stopTestRun` (run in progress) is
+started at once and then stopped by the same dispatch -/
+example : (model { hasFallback := true, fbFlag := true
+                   ops := [.start, .status (ev1 (some 0) (some "w/a")), .stop]
+                   scripts := [{ sink := 0, kind := .start, entries := [[.add (.addPrefix 1 ['w'] true true)]] },
+                               { sink := 1, kind := .stop, entries := [[.add (.addId 2 (some 0) true)]] }] }).segments =
+    [ [.del 0 .start false, .radd (.addPrefix 1 ['w'] true true), .del 1 .start false],
+      [.del 1 (.status (ev1 (some 0) (some "a"))) false],
+      [.del 0 .stop false, .del 1 .stop false, .radd (.addId 2 (some 0) true), .del 2 .start true, .del 2 .stop false] ] := by
+  decide
+/-- a raising sink: the dispatch ends there, the later sink is not started, no run is in progress afterwards (the
+rule added next is not started), and `stopTestRun` then reaches sinks that were never started -/
+example : (model { hasFallback := true, fbFlag := true
+                   ops := [.addId 1 none true, .start, .addId 2 (some 0) true, .stop]
+                   scripts := [{ sink := 0, kind := .start, entries := [[.raise]] }] }) =
+    { segments := [[], [.del 0 .start false, .exc "Fault"], [], [.del 0 .stop false, .del 1 .stop false, .del 2 .stop false]]
+      results := [.ok, .raised "Fault", .ok, .ok] } := by decide
+/-- the spec is sharp: a second start of the re-entrantly registered worker inside the same dispatch is rejected -/
+example : cHistory { hasFallback := true, fbFlag := true, ops := [.start]
+                     scripts := [{ sink := 0, kind := .start, entries := [[.add (.addId 1 none true)]] }] }
+    { segments := [[.del 0 .start false, .radd (.addId 1 none true), .del 1 .start true, .del 1 .start false]]
+      results := [.ok] } = false := by decide
+example : popAll [['a', 'b'], ['0']] { ev1 none none with route := pushAll [['0'], ['a', 'b']] (some ['r', '/', 's']) }
+    = some { ev1 none none with route := some ['r', '/', 's'] } := by decide
+example : route (single ['0']) { ev1 none none with route := Deco.prefixRoute ['0'] (some []) }
+    = some (0, ev1 none none) := by decide
 
 end TTV.Props.C18
